@@ -17,32 +17,32 @@ CLAIMS = {
     'C02': ('Kernel proof of the mechanisms that keep the token stream intact: the chunk-list primitives (ChunkListManager: every operation preserves the doubly-linked-list '
             'invariant and changes the sequence only as specified), the tokenizer white-space primitives (only white space is ever discarded, whole terminators consumed), the '
             'token-fusion guard (space_text core: PCF_FORCE_SPACE for back-to-back words / fusing punctuators; ensure_force_space / space_needed honour it), output_to_column '
-            '(columns never move left) and the dispatch of output_text (every chunk text written once, after moving to its column). The passes between tokenizer and output are glue assumptions.', '4 C02, 9'),
+            '(columns never move left) and the dispatch of output_text (every chunk text written once, after moving to its column). The passes between tokenizer and output are glue assumptions. Round 4: do_space never answers REMOVE between a brace-less else/do and the following word; the safety check of space_text also covers a / before * or / (comment opener); the operator-type collection of tokenize_cleanup keeps two words apart.', '4 C02, 9'),
     'C03': ('Kernel proof, literal half only: add_text()/add_char() emit the characters of a literal chunk unchanged (no tab expansion when is_literal) and output_text hands every chunk text to add_text '
-            'exactly once with is_literal == Is(CT_STRING). The comment writers are out of reach of the C++ front end and NOT covered.', '4 C03, 9'),
-    'C04': ('Kernel proof of the option gating of the code-modifying passes in uncrustify_file().', '4 C04'),
+            'exactly once with is_literal == Is(CT_STRING). The comment writers are out of reach of the C++ front end and NOT covered. Round 4: cmt_trim_whitespace (the line trimmer every comment line passes through), the strip fragment of tokenize() and tag_compare (raw-string delimiters) are under contract.', '4 C03, 9'),
+    'C04': ('Kernel proof of the option gating of the code-modifying passes in uncrustify_file(). Round 4: the option gates of do_braces / do_parens*, convert_brace and insert_vbrace (an added brace never lands behind a // comment).', '4 C04'),
     'C06': ('Kernel proof of memory safety, absence of signed overflow and termination (decreases clauses) for the decoders of unicode.cpp and the tokenizer white-space primitives, for inputs of any length; '
-            'progress contracts (true => cursor advanced, false => restored); output once and last in uncrustify_file().', '4 C06'),
+            'progress contracts (true => cursor advanced, false => restored); output once and last in uncrustify_file(). Round 4: the bracket stack of check_template (no access outside tokens[max_token_count], for every nesting depth) and termination of find_start_brace.', '4 C06'),
     'C07': ('Kernel proof: while processing is off parse_next() asks parse_ignored first; ignored text is written raw by add_text(is_ignored) (no column/space state touched) and by nothing else '
-            '(output_text dispatch); the blank-line path of the capture consumes only blanks/terminators with an exact count; cpd.unc_off is cleared after every file.', '4 C07, 9'),
+            '(output_text dispatch); the blank-line path of the capture consumes only blanks/terminators with an exact count; cpd.unc_off is cleared after every file. Round 4: which comment opens / closes a region (tail of parse_comment); CT_IGNORED text is never stripped by tokenize().', '4 C07, 9'),
     'C08': ('Kernel proof: add_char() is the single line-break writer (no raw CR/LF reaches write_char; lone CR and CR LF give one break), output_text emits line breaks only through it, the terminator census, '
-            'the choice of cpd.newline, whole-terminator consumption in the tokenizer, census reset per file.', '4 C08, 9'),
+            'the choice of cpd.newline, whole-terminator consumption in the tokenizer, census reset per file. Round 4: the newline eaters of disabled regions do not vote in the census.', '4 C08, 9'),
     'C09': ('Kernel proof: the UTF-8/UTF-16 codec, BOM/encoding detection policy and per-encoding writers of src/unicode.cpp against contracts from RFC 3629/2279 and Unicode D91, for all code points and byte vectors of any length.', '4 C09'),
     'C11': ('Kernel proof: uncrustify_end() re-establishes the start-of-file value of every per-file field of cpd (frame included); do_source_file() restores a forced language and rebuilds the keyword table for every file.', '4 C11, 9'),
     'C12': ('Kernel proof: bout_content_matches() returns true exactly for byte-equal buffers; write_byte() capture branch; do_source_file() performs no file-system write under --check and none under --if-changed when unchanged; '
             'the capture buffer is emptied after every file.', '4 C12'),
     'C13': ('Kernel proof (safety half): call-order typestate of do_source_file() over all outcomes of every libc call: target never opened for writing, rename only after a successful close with no write error, failures exit non-zero; '
-            'backup_copy_file() returns EX_OK only with a complete backup. Crash points are not expressible.', '4 C13'),
-    'C14': ('Kernel proof (per-run protocol): backup_copy_file() on a ghost file system; in do_source_file() the md5 is recorded only after the target is final and only when this run ensured the backup. Histories are argued by a one-step invariant, not machine checked.', '4 C14, 9'),
-    'C15': ('Kernel proof: generated to_string/convert_string are inverse for every enum value. String values, custom types and file_ext mappings are NOT covered.', '4 C15'),
+            'backup_copy_file() returns EX_OK only with a complete backup. Crash points are not expressible. Round 4: the backup is made before the rename; load_mem_file returns 0 only with the whole file in memory.', '4 C13'),
+    'C14': ('Kernel proof (per-run protocol): backup_copy_file() on a ghost file system; in do_source_file() the md5 is recorded only after the target is final and only when this run ensured the backup. Histories are argued by a one-step invariant, not machine checked. Round 4: backup_create_md5_file (digest of the whole file or nothing) and load_mem_file.', '4 C14, 9'),
+    'C15': ('Kernel proof: generated to_string/convert_string are inverse for every enum value; the writer of string option values, read back by a model of the split_args reader, yields the value (any length); every custom keyword is written as a line the loader (contract of process_option_line) maps back to the same keyword and token. file_ext mappings, numeric values and the reader split_args itself are NOT covered.', '4 C15, 9'),
     'C16': ('Kernel proof: BoundedOption::validate accepts exactly [min,max]; read_number<signed/unsigned> and Option<bool>::read assign only on success, store exactly the number written (no truncation), stay inside the value text '
-            '(memory safety for every text) and diagnose every rejection; too_big_for_nl_max covers every documented count option.', '4 C16, 9'),
+            '(memory safety for every text) and diagnose every rejection; too_big_for_nl_max covers every documented count option. Round 4: the whole line dispatcher process_option_line (a diagnosed line has no other effect, for any command word and any number of arguments), read_enum (references only to options of the same type), read_version_part.', '4 C16, 9'),
     'C17': ('Kernel proof: add_char() buffers blanks and flushes them only in front of a character; tab-after-space guard with the right option; add_text == sequence of add_char; output_to_column / cmt_output_indent '
-            '(tabs only when allowed, never after a blank); output_text passes allow_tabs == false whenever the effective indent_with_tabs / pp_indent_with_tabs is 0; end-of-file policy under C20.', '4 C17, 9'),
+            '(tabs only when allowed, never after a blank); output_text passes allow_tabs == false whenever the effective indent_with_tabs / pp_indent_with_tabs is 0; end-of-file policy under C20. Round 4: chunk texts leave the tokenizer without trailing blanks (strip fragment) and cmt_trim_whitespace hands on no trailing blank.', '4 C17, 9'),
     'C19': ('Kernel proof: do_space() returns the configured value of exactly the option it logs, for all token neighbourhoods and all option values at once; space_needed / space_text core / output_text (sp_before_nl_cont) '
             'turn the four values into columns as the property says. One recorded known finding (sp_bool with pos_bool).', '4 C19, 9'),
     'C20': ('Kernel proof: blank_line_max/blank_line_set caps, one iteration of do_blank_lines (at most nl_max line breaks when no count option asks for more), can_increase_nl (eat_blanks_* next to braces), '
-            'newlines_eat_start_end policy, nl_max cross check.', '4 C20, 9'),
+            'newlines_eat_start_end policy, nl_max cross check. Round 4: newlines_remove_disallowed only lowers counts to 1 where can_increase_nl() forbids blank lines and leaves the first chunk of the file alone.', '4 C20, 9'),
 }
 
 NOT_APPLICABLE = {
